@@ -343,6 +343,10 @@ theorem cmpStr_lt (a b : String) : (cmpStr a b < 0 ↔ a < b) ∧ (cmpStr a b > 
         · exact h
       simp [h1, h2, h3]
 
+/-- both literals are language-tagged strings: the one pairing whose ordering the property leaves unspecified
+    (SPARQL: type error; rdflib, and therefore pySHACL: ordered by tag, then lexical form) -/
+def BothLang (a b : Lit) : Prop := a.lang ≠ "" ∧ b.lang ≠ "" ∧ a.val = .str ∧ b.val = .str
+
 theorem cmpInt_neg (a b : Int) : cmpInt a b < 0 ↔ a < b := (cmpInt_lt a b).1
 theorem cmpInt_pos (a b : Int) : 0 < cmpInt a b ↔ b < a := (cmpInt_lt a b).2.1
 theorem cmpInt_nonpos (a b : Int) : cmpInt a b ≤ 0 ↔ (a < b ∨ a = b) := by
@@ -361,7 +365,7 @@ set_option maxHeartbeats 1000000 in
     `compare_literal(a, b)` are exactly "the SPARQL operator returns true" — `a < b`, `b < a`, `a <= b`,
     `b <= a` — and a `TypeError` (no comparison) is exactly "the operator does not return true".
     Every pairing of python value classes × ill-typedness × language tag × datatype is covered. -/
-theorem cmpFlag_spec (a b : Lit) (ha : InScope a) (hb : InScope b) :
+theorem cmpFlag_spec (a b : Lit) (ha : InScope a) (hb : InScope b) (hlang : ¬ BothLang a b) :
     (cmpFlag a b (fun c => c < 0) = true ↔ sparqlLt a b = some true) ∧
     (cmpFlag a b (fun c => c > 0) = true ↔ sparqlLt b a = some true) ∧
     (cmpFlag a b (fun c => c ≤ 0) = true ↔ sparqlLe a b = some true) ∧
@@ -369,6 +373,7 @@ theorem cmpFlag_spec (a b : Lit) (ha : InScope a) (hb : InScope b) :
   obtain ⟨alex, adt, alang, aval, aill⟩ := a
   obtain ⟨blex, bdt, blang, bval, bill⟩ := b
   unfold InScope at ha hb
+  unfold BothLang at hlang
   cases aill <;> cases bill <;> cases aval <;> cases bval <;>
     try (simp [cmpFlag, compareLiteral, orderKind, sparqlLt, sparqlLe, operand, opLt, opEq, numVal, cmpRat] at ha hb ⊢)
   all_goals try (simp only [cmpInt_neg, cmpInt_pos, cmpInt_nonpos, cmpInt_nonneg, and_self]; done)
@@ -381,10 +386,10 @@ theorem cmpFlag_spec (a b : Lit) (ha : InScope a) (hb : InScope b) :
      (have h' : ¬ bdt = adt := fun e => h e.symm; simp [h, h'])]; done)
   all_goals try (by_cases hal : alang = "" <;> by_cases hbl : blang = "" <;>
         by_cases had : (adt = "" ∨ adt = xsdString) <;> by_cases hbd : (bdt = "" ∨ bdt = xsdString) <;>
-        simp [hal, hbl, had, hbd, cmpStr_neg, cmpStr_pos, cmpStr_nonpos, cmpStr_nonneg] at hb ⊢; done)
+        simp [hal, hbl, had, hbd, cmpStr_neg, cmpStr_pos, cmpStr_nonpos, cmpStr_nonneg] at hb hlang ⊢; done)
   all_goals try (by_cases hal : alang = "" <;> by_cases hbl : blang = "" <;>
         by_cases had : (adt = "" ∨ adt = xsdString) <;> by_cases hbd : (bdt = "" ∨ bdt = xsdString) <;>
-        simp [hal, hbl, had, hbd, cmpStr_neg, cmpStr_pos, cmpStr_nonpos, cmpStr_nonneg] at ha ⊢; done)
+        simp [hal, hbl, had, hbd, cmpStr_neg, cmpStr_pos, cmpStr_nonpos, cmpStr_nonneg] at ha hlang ⊢; done)
 
 end Spec
 end Pyshacl
